@@ -183,10 +183,15 @@ func shape(p string) string {
 	return sb.String()
 }
 
+// wireOf: the request target whose single percent-decoding is the probe path
+func wireOf(p string) string { return strings.ReplaceAll(p, "%", "%25") }
+
 func probes(r *mon.Rand, routes []string, n int) []string {
 	set := map[string]bool{}
-	pv := []string{"a", "b", "ab", "abc", "q", "zz", ""}
-	cv := []string{"a", "b", "ab", "q", "a/b", "ab/a", "", "q/"}
+	// values may contain text that looks like an escape once the URI layer has decoded the
+	// target (sent as %2541 etc., see wireOf): the router must hand it out as it stands
+	pv := []string{"a", "b", "ab", "abc", "q", "zz", "", "%41", "a+b", "%2e%2e"}
+	cv := []string{"a", "b", "ab", "q", "a/b", "ab/a", "", "q/", "%2Fx/a+b", "%2e%2e/q"}
 	for k := 0; k < n; k++ {
 		base := routes[r.Intn(len(routes))]
 		var sb strings.Builder
@@ -370,7 +375,7 @@ func checkSet(w *mon.W, c *mon.Case, routes []string, exhaustiveFamily bool) {
 				} else {
 					ctx = e.NewContext()
 				}
-				ctx.Request.SetRequestURI(p)
+				ctx.Request.SetRequestURI(wireOf(p))
 				ctx.Request.Header.SetMethod(m)
 				ctx.Request.SetHost("h")
 				e.ServeHTTP(context.Background(), ctx)
